@@ -384,3 +384,54 @@ def c09_r5(ctx):
            detail="copies: %s; writes to self: %s" % ([norm.canon(c) for c in copies], [norm.stmt_text(s_) for s_ in stores_self] + [norm.canon(c) for c in upd_self]))
     if n < 100:
         raise AnalysisError("only %d modules scanned" % n)
+
+
+# methods that change nothing and hand back a modified copy / derived object: calling one and dropping the result does nothing
+COPY_ON_WRITE = {
+    "set": ("searching.SearchContext",),            # derived search context
+    "with_boost": ("query.qcore.Query",),
+    "normalize": ("query.qcore.Query",),
+    "replace": ("query.qcore.Query", "matching.mcore.Matcher"),
+    "accept": ("query.qcore.Query",),
+    "simplify": ("query.qcore.Query",),
+    "copy": ("query.qcore.Query", "matching.mcore.Matcher"),
+}
+COW_RECEIVER_HINTS = {"set": ("context", "ctx")}
+
+
+@rule("C09", "R6", "K9", "the result of a copy-on-write call is used",
+      min_instances=1, also=("C15", "C14", "C05"),
+      clause="SearchContext.set(), Query.with_boost()/normalize()/replace()/accept()/simplify()/copy() and Matcher.replace()/copy() "
+             "return a new object and leave the receiver untouched; a call of one of them as a bare statement (result dropped) is a "
+             "setting that silently never takes effect (a weighting model, needs_current flag or simplified matcher that is never used).")
+def c09_r6(ctx):
+    prog = ctx.prog
+    C = calls_of(prog)
+    probe = ast.parse("def f(self, context):\n    context.set(weighting=None)\n    return context\n")
+
+    def dropped(tree):
+        return [st for st in ast.walk(tree) if isinstance(st, ast.Expr) and isinstance(st.value, ast.Call)
+                and isinstance(st.value.func, ast.Attribute) and st.value.func.attr in COPY_ON_WRITE]
+    if len(dropped(probe)) != 1:
+        raise AnalysisError("C09-R6 detector does not match its own positive example")
+    n = 0
+    for f in prog.functions.values():
+        if f.module.name.startswith(("whoosh.lang", "whoosh.support", "whoosh.filedb.gae")):
+            continue
+        n += 1
+        for st in dropped(f.node):
+            c = st.value
+            nm = c.func.attr
+            # is the receiver one of the copy-on-write kinds?  typed resolution first, receiver naming as a fallback for `set`
+            kinds = COPY_ON_WRITE[nm]
+            r = C.resolve(f, c)
+            owner = [t.cls.short for t in r.targets if t.cls is not None] if r.targets else []
+            roots = [prog.cls(k) for k in kinds if prog.has_cls(k)]
+            typed = any(t.cls is not None and any(prog.is_subclass(t.cls, root) for root in roots) for t in r.targets) if r.targets else False
+            hinted = norm.canon(c.func.value).split(".")[-1] in COW_RECEIVER_HINTS.get(nm, ())
+            if not (typed or hinted):
+                continue
+            ctx.saw(f)
+            ctx.ob(f, False, "the result of %s is used" % norm.canon(c)[:70],
+                   detail="%s() returns a new object and does not modify its receiver: this statement has no effect" % nm, loc=ctx.nodeloc(f, st))
+    ctx.ob("whole program", n > 2000, "%d functions scanned for dropped results of copy-on-write calls" % n)
